@@ -79,11 +79,11 @@ Avail(kind) ==
     [] kind \in {"mxrow", "mxinc", "mxexc"} -> {"needs", "inputs", "github"}       \* jobs.<job_id>.strategy
     [] kind = "jobif" -> {"needs", "inputs", "github"}
     [] kind = "wfenv" -> {"inputs", "secrets", "github"}
-    [] kind = "runname" -> {"inputs", "github"}
+    [] kind \in {"runname", "wfconcgroup", "wfconccancel"} -> {"inputs", "github"}
     [] kind = "callout" -> {"inputs", "jobs", "github"}
 CtxVar(ctx) == IF ctx = "ghinputs" THEN "github" ELSE ctx
 
-HeaderSites(s) == {Site("runname", 0, 0), Site("wfenv", 0, 0)}
+HeaderSites(s) == {Site("runname", 0, 0), Site("wfenv", 0, 0), Site("wfconcgroup", 0, 0), Site("wfconccancel", 0, 0)}
                   \cup (IF s.call.k = "some" /\ s.call.outs THEN {Site("callout", 0, 0)} ELSE {})
 \* values inside strategy.matrix: an element of a literal row, a value of a literal include element, of an exclude element
 MatrixSites(s, j) ==
@@ -258,7 +258,8 @@ OpWorkflowPre(r, s) ==
       e3 == IF s.call.k = "some" /\ s.call.sec.k = "some"
               THEN [e2 EXCEPT !.secretsTy = Obj("strict", {P(x, StrT) : x \in Range(s.call.sec.ns)})] ELSE e2
       r1 == [r EXCEPT !.ex = e3]
-      o  == ObsOf({Site("runname", 0, 0), Site("wfenv", 0, 0)}, r1)       \* run-name, env: checked after the events
+      \* run-name, env, concurrency: checked after the events have populated inputs / secrets
+      o  == ObsOf({Site("runname", 0, 0), Site("wfenv", 0, 0), Site("wfconcgroup", 0, 0), Site("wfconccancel", 0, 0)}, r1)
       r2 == [r1 EXCEPT !.ex.wf = TRUE,
                        !.sc.wshell = IF s.wshell # "" THEN s.wshell ELSE @,
                        !.py.w = IF s.wshell # "" THEN PyKind(s.wshell) ELSE @]
@@ -387,7 +388,7 @@ Spellings == << [syn |-> "dot", ref |-> "l", decl |-> "l"], [syn |-> "idx", ref 
                 [syn |-> "dot", ref |-> "U", decl |-> "U"], [syn |-> "idx", ref |-> "U", decl |-> "U"] >>
 KindOrd == <<"run", "with", "stepenv", "outputs", "stepname", "steptimeout", "stepif", "envurl", "jobenv", "jobname",
              "environment", "runson", "container", "service", "concurrency", "timeout", "conterr", "callwith",
-             "callsecret", "mxrow", "mxinc", "mxexc", "jobif", "wfenv", "runname", "callout">>
+             "callsecret", "mxrow", "mxinc", "mxexc", "jobif", "wfenv", "runname", "callout", "wfconcgroup", "wfconccancel">>
 AllNames == <<"a", "b", "c", "z", "j0", "j1", "j2", "j3", "s", "github_token", "actions_runner_debug">>
 IdxIn(seq, x) == IF \E i \in DOMAIN seq : seq[i] = x THEN CHOOSE i \in DOMAIN seq : seq[i] = x ELSE 0
 SpellingOf(s, site, r) ==
@@ -396,11 +397,38 @@ SpellingOf(s, site, r) ==
            + Len(s.call.ins) + Len(s.disp.ins) + Len(s.call.sec.ns)
   IN Spellings[(h % 8) + 1]
 
+(* Place of the reference inside the expression.  Whether a reference resolves does not depend on where in the
+   expression tree it stands: every operand of every operator, every argument, index and receiver is checked.  "@" is
+   the reference; every frame is well typed whatever the type of the reference is. *)
+Embeddings == << "toJSON(@)",
+                 "toJSON(@) || 'y'", "'y' || toJSON(@)", "toJSON(@) && 'y'", "'y' && toJSON(@)",
+                 "(toJSON(@) || 'y') && 'z'", "!(toJSON(@) || 'y') || 'z'", "(toJSON(@) && 'y') || 'z'",
+                 "'z' && ('y' || toJSON(@))", "!('y' && toJSON(@)) && 'z'",
+                 "('a' && (toJSON(@) || 'y')) || 'z'", "('a' || ('y' && toJSON(@))) && 'z'",
+                 "!toJSON(@)", "toJSON(@) == 'a'", "'a' != toJSON(@) || 'z'",
+                 "format('{0}', @)", "contains(toJSON(@), 'a')",
+                 "toJSON(github[toJSON(@)])", "toJSON(fromJSON(toJSON(@)).extra)" >>
+(* Shape of a step id that is given by an expression ("$"): the id is statically unknown in each of them. *)
+IdShapes == << "${{ format('dyn{0}', 1) }}", "build-${{ format('dyn{0}', 1) }}", "${{ 'x' }}_build",
+               "${{ 'a' }}-${{ 'b' }}", "pre-${{ 'x' }}-post" >>
+(* Layout of the header: 0/1 = run-name, env, concurrency written after / before `on:`; +2 = workflow_dispatch
+   written before workflow_call. *)
+RefOrd(r) == IdxIn(AllNames, r.p[1]) + 11 * Len(r.p)
+             + (IF Len(r.p) >= 2 THEN IdxIn(<<"outputs", "result", "conclusion", "zz">>, r.p[2]) ELSE 0)
+             + (IF Len(r.p) >= 3 THEN 2 * IdxIn(<<"o", "foo", "zz">>, r.p[3]) ELSE 0)
+ShapeOrd(s) == Len(s.jobs) + Len(s.jobs[1].steps) + Len(s.jobs[1].needs) + Len(s.jobs[1].mx.rows) + Len(s.jobs[1].mx.inc.cs)
+               + Len(s.jobs[Len(s.jobs)].steps) + Len(s.jobs[Len(s.jobs)].needs)
+               + Len(s.call.ins) + Len(s.disp.ins) + Len(s.call.sec.ns)
+EmbeddingOf(s, site, r) == Embeddings[((IdxIn(KindOrd, site.k) + 2 * site.j + 3 * site.s + RefOrd(r) + 5 * ShapeOrd(s)) % Len(Embeddings)) + 1]
+IdShapeOf(s, site, r) == IdShapes[((site.j + site.s + RefOrd(r) + ShapeOrd(s)) % Len(IdShapes)) + 1]
+LayoutOf(s, site, r) == (IdxIn(KindOrd, site.k) + RefOrd(r) + 3 * ShapeOrd(s)) % 4
+
 VecSites(s) == {x \in AllSites(s) : x.k \in Sites}
 Pick ==
   /\ sh.jobs # <<>>
   /\ \E site \in VecSites(sh) : \E r \in {q \in RefsAt(site.k) : q.ctx \in Ctxs /\ (site.k \in ShortSites => Len(q.p) = 1)} :
-       tc' = ToJson([sh |-> sh, site |-> site, ref |-> r, def |-> Defined(sh, site, r), sp |-> SpellingOf(sh, site, r)])
+       tc' = ToJson([sh |-> sh, site |-> site, ref |-> r, def |-> Defined(sh, site, r), sp |-> SpellingOf(sh, site, r),
+                     emb |-> EmbeddingOf(sh, site, r), idsh |-> IdShapeOf(sh, site, r), lay |-> LayoutOf(sh, site, r)])
   /\ phase' = "vec"
   /\ UNCHANGED <<sh, visited, cur, k, rs, obs, seen>>
 
